@@ -41,6 +41,7 @@ type Expected struct {
 	TermAsValue int              // number of `--` tokens taken as a still-missing mandatory value
 	// MustRemain: argv indices of tokens that hold an unknown option although the case as a whole is unspecified
 	// (value-taking letter inside a bundle); in Pass/Warn mode such a token must still be part of remaining (C03)
+	NoNameToks     int // tokens such as -=v / --=v treated as text (Pass mode or require-order level)
 	MustRemain     []int
 	MustRemainMode int
 	MustRemainName string // the first unknown letter of that token
@@ -68,6 +69,7 @@ type mstate struct {
 }
 
 var reClearOpt = regexp.MustCompile(`(?s)^--?[^-=][^=]*(=.*)?$`)
+var reNoName = regexp.MustCompile(`(?s)^-=`)
 var reRange = regexp.MustCompile(`([+-]?[0-9]+)\.\.([+-]?[0-9]+)`)
 
 // TokClass classifies a token: "term" (--), "opt" (clearly option-looking, incl. "-"), "odd" (starts with '-' but not clearly an option), "text".
@@ -432,7 +434,17 @@ LOOP:
 	for i < len(argv) {
 		tok := argv[i]
 		exp.LevelAt[i] = cur.Path
-		switch TokClass(tok) {
+		class := TokClass(tok)
+		if class == "odd" && reNoName.MatchString(tok) && (cur.UnknownMode == UnkPass || cur.RequireOrder) {
+			// one dash directly followed by `=`: no option name can be taken from the token, so it cannot be a known
+			// option (`--=v` is different: the implementation reads it as the lonesome-dash option `-` with value v,
+			// which no statement covers - it stays unspecified). Whether it counts as an unknown option or as an argument, in Pass mode it stays in remaining
+			// and at a require-order level it is the stop token: for conservation it behaves like text there.
+			// (Fail / Warn mode: error or warning is not fixed by any statement - still unspecified.)
+			class = "text"
+			exp.NoNameToks++
+		}
+		switch class {
 		case "term":
 			exp.Consumed[i] = true
 			rem = append(rem, argv[i+1:]...)
